@@ -98,56 +98,5 @@ fn w11_vcp_cuts() {
     core::mem::forget(r);
 }
 
-/// clutter filter map decoder: <= 1 elevation segment; zone count symbolic (<= 1) at azimuths 0 and 359, zero
-/// elsewhere: numbering, 360 azimuths, declared zone counts, zone bytes; a body that ends early is an error
-#[kani::proof]
-#[kani::unwind(362)]
-fn w13_cfm_structure() {
-    let mut buf = [0u8; 6 + 360 * 2 + 8];
-    let segs: u8 = kani::any();
-    kani::assume(segs <= 1);
-    buf[5] = segs;
-    let z0: u8 = kani::any();
-    let z359: u8 = kani::any();
-    kani::assume(z0 <= 1 && z359 <= 1);
-    let zone: [u8; 4] = kani::any();
-    // lay out azimuth 0 (with z0 zones), azimuths 1..=358 (no zones), azimuth 359 (z359 zones)
-    let mut p = 6usize;
-    buf[p + 1] = z0;
-    p += 2;
-    if z0 == 1 {
-        buf[p..p + 4].copy_from_slice(&zone);
-        p += 4;
-    }
-    p += 358 * 2;
-    buf[p + 1] = z359;
-    p += 2;
-    if z359 == 1 {
-        buf[p..p + 4].copy_from_slice(&zone);
-        p += 4;
-    }
-    let total = if segs == 0 { 6 } else { p };
-    let mut c = SliceReader { buf: &buf[..], pos: 0 };
-    let r = crate::messages::clutter_filter_map::decode_clutter_filter_map(&mut c);
-    match &r {
-        Ok(m) => {
-            assert!(m.elevation_segments.len() == segs as usize);
-            if segs == 1 {
-                let e = &m.elevation_segments[0];
-                assert!(e.elevation_segment_number == 0);
-                assert!(e.azimuth_segments.len() == 360);
-                assert!(e.azimuth_segments[0].azimuth_segment == 0 && e.azimuth_segments[359].azimuth_segment == 359);
-                assert!(e.azimuth_segments[0].range_zones.len() == z0 as usize);
-                assert!(e.azimuth_segments[359].range_zones.len() == z359 as usize);
-                assert!(e.azimuth_segments[180].range_zones.len() == 0);
-                if z359 == 1 {
-                    assert!(e.azimuth_segments[359].range_zones[0].op_code == u16::from_be_bytes([zone[0], zone[1]]));
-                    assert!(e.azimuth_segments[359].range_zones[0].end_range == u16::from_be_bytes([zone[2], zone[3]]));
-                }
-            }
-            assert!(c.pos == total as u64);
-        }
-        Err(_) => assert!(false),
-    }
-    core::mem::forget(r);
-}
+// (no witness for decode_clutter_filter_map: its 360-iteration azimuth loop needs an unwinding bound of 361, and CBMC
+// unrolls the recursive drop glue of result::Error to that depth at every `?` — infeasible; the Verus unit stands alone)
